@@ -319,6 +319,29 @@ def case_sum_unknown(prog, method, A, style, taint_mode="abort"):
     return finish(case, w)
 
 
+def case_sum_removed_dimension(prog, method, A, how, style, taint_mode="abort"):
+    """y = x reduced / sliced so that the last dimension is gone; then that dimension, asked of y, is an unknown one"""
+    w = World(prog, taint_mode)
+    gone = A[-1]
+    case = Case("sum", method, f"FlodymArray.{method}", {"op": method, "x_dims": list(A), "history": f"y = x.{how}(...) without '{gone}'", "arg": [gone], "given_as": style})
+    x = w.array("x", A)
+    run_guarded(lambda: w.it.call_method(x.f["dims"], "index", gone))          # the parent set has been queried before
+    if how == "sum_to":
+        k0, y = run_guarded(lambda: w.it.call_method(x, "sum_to", tuple(A[:-1])))
+    elif how == "sum_over":
+        k0, y = run_guarded(lambda: w.it.call_method(x, "sum_over", (gone,)))
+    else:
+        k0, y = run_guarded(lambda: w.it.call_method(x, "__getitem__", {gone: w.items(gone)[0]}))
+    if k0 != "ok" or not isinstance(y, Obj):
+        return None
+    snaps = w.snap(y)
+    arg = (gone,) if style == "letters" else (gone * 2,)
+    kind, r = run_guarded(lambda: w.it.call_method(y, method, arg))
+    case.v("raises", kind == "raise", f"{method} accepted the dimension {arg!r}, which the array (obtained by {how}) does not have ({describe(r, w)})")
+    common_checks(case, w, [y], snaps, kind, r)
+    return finish(case, w)
+
+
 def case_total(prog, A, taint_mode="abort"):
     w = World(prog, taint_mode)
     case = Case("sum", "sum_values", "FlodymArray.sum_values", {"op": "sum_values", "x_dims": list(A)})
@@ -408,6 +431,10 @@ def reduce_cases(prog, alpha, lists=None, taint_mode="abort"):
                 yield lambda m=method, A=A, st=style: case_sum_unknown(prog, m, A, st, taint_mode)
         yield lambda A=A: case_total(prog, A, taint_mode)
         yield lambda A=A: case_shares(prog, A, ("z",), taint_mode)
+        if len(A) >= 2:
+            for how in ("sum_to", "sum_over", "slice"):
+                for style in ("letters", "names"):
+                    yield lambda A=A, how=how, style=style: case_sum_removed_dimension(prog, "sum_over", A, how, style, taint_mode)
         for B in L:
             if all(l in B for l in A) or len(B) <= len(A) + 1:
                 for method in ("cast_to", "cast_values_to"):
